@@ -1079,3 +1079,7 @@ impl StreamInterestProvider for SendStream {
 
 #[cfg(test)]
 mod tests;
+
+#[cfg(all(aws_s2n_quic_verif, any(test, all(kani, feature = "testing"))))]
+#[path = "/verif/harness/transport/tx_flow.rs"]
+mod verif;
